@@ -87,7 +87,7 @@ def make_history(seed, i):
 
 
 def run(O, P):
-    n = 40 if O.tier == "quick" else 400
+    n = 40 if O.tier == "quick" else 1200
     hist = [make_history(O.seed, i) for i in range(n)]
     # rewriters that share a process: the same configuration again, and a similar one (same sources, other replacement names)
     batch = []
